@@ -474,6 +474,55 @@ func propC03(c *Ctx) {
 			o.Fail(c.W.Pos(fn.Pos()), "no path reaches the payout (anchor floor)", nil)
 		}
 	})
+	// "makes it fail with no effect": nothing is written, paid or announced before the output-root
+	// and proof equalities hold - a claim that is then rejected has left no mark (not even its
+	// claim record)
+	c.Rule("C03.R6", func() {
+		o := c.Ob("C03.R6", "FinalizeTokenWithdrawal: no store write, keeper write or event before output-root equality and proof equality are established")
+		for _, p := range c.Paths(fn, hostPO) {
+			o.Paths++
+			for i := range p.Events {
+				ev := &p.Events[i]
+				k := effectKind(ev)
+				if !(strings.HasPrefix(k, "coll:") || strings.HasPrefix(k, "keeper:") || k == "event") {
+					continue
+				}
+				o.Sites++
+				okRoot := p.HasFact(i, func(a *Term, pol bool) bool {
+					args := callAtom(a, "bytes.Equal")
+					if !pol || len(args) != 2 {
+						return false
+					}
+					for k := 0; k < 2; k++ {
+						x, y := strip(args[k]), strip(args[1-k])
+						if x.Key() == outGet+".OutputRoot" && y.Op == "call" && y.Name == rootFn {
+							return true
+						}
+					}
+					return false
+				})
+				okProof := p.HasFact(i, func(a *Term, pol bool) bool {
+					args := callAtom(a, "bytes.Equal")
+					if !pol || len(args) != 2 {
+						return false
+					}
+					for k := 0; k < 2; k++ {
+						x, y := strip(args[k]), strip(args[1-k])
+						if x.Key() == "req.StorageRoot" && y.Op == "call" && y.Name == proofFn {
+							return true
+						}
+					}
+					return false
+				})
+				if !okRoot || !okProof {
+					o.Fail(c.evPos(ev), fmt.Sprintf("effect %s before the claim is verified (output root equality [%v], proof equality [%v]): a rejected claim leaves a mark", k, okRoot, okProof), c.Dump(p, i))
+				}
+			}
+		}
+		if o.Sites == 0 {
+			o.Fail(c.W.Pos(fn.Pos()), "no effect found (anchor floor)", nil)
+		}
+	})
 	c.Rule("C03.R3", func() { digestParamRule(c, "C03.R3") })
 	// the leaf / root commit to the claimed fields byte for byte (no case folding, trimming,
 	// truncation or re-encoding on the way into the digest): pinned layouts
@@ -777,68 +826,8 @@ func propC05(c *Ctx) {
 	// one clock for finality: payout, deletion refusal and the last-finalized query must compare
 	// block time and deadline in the SAME unit (all Unix seconds or all time.Time) - otherwise an
 	// output is final for one of them and not yet final for another inside the boundary second
-	c.Rule("C05.R7", func() {
-		o := c.Ob("C05.R7", "every finality comparison of ophost uses the same time unit")
-		units := map[string][]string{}
-		type tgt struct {
-			fn *ssa.Function
-			po PO
-		}
-		tgts := []tgt{
-			{hostHandler(c, "FinalizeTokenWithdrawal"), hostPO},
-			{c.Method(hostKeeper, "Keeper", "DeleteOutputProposal"), PO{Params: []string{"k", "ctx", "bridgeId", "outputIndex"}}},
-			{c.Method(hostKeeper, "Keeper", "GetLastFinalizedOutput"), PO{Params: []string{"k", "ctx", "bridgeId"}, Callbacks: true}},
-			{c.Method(hostKeeper, "Keeper", "IsFinalized"), PO{Params: []string{"k", "ctx", "bridgeId", "outputIndex"}}},
-		}
-		for _, t := range tgts {
-			for _, p := range c.Paths(t.fn, t.po) {
-				o.Paths++
-				for i := range p.Events {
-					ev := &p.Events[i]
-					if ev.Kind != EvFact {
-						continue
-					}
-					rf, ok := factRel(ev.Cond, ev.Pol)
-					if !ok {
-						continue
-					}
-					x, y := rf.X.Key(), rf.Y.Key()
-					if !strings.Contains(x, "BlockTime(ctx)") {
-						x, y = y, x
-					}
-					if !strings.Contains(x, "BlockTime(ctx)") || !strings.Contains(y, ".L1BlockTime") {
-						continue
-					}
-					o.Sites++
-					u := func(k string) string {
-						if strings.HasPrefix(k, "(time.Time).Unix(") {
-							return "seconds"
-						}
-						if strings.HasPrefix(k, "(time.Time).UnixNano(") || strings.HasPrefix(k, "(time.Time).UnixMilli(") {
-							return "sub-seconds"
-						}
-						return "time.Time"
-					}
-					ux, uy := u(x), u(y)
-					if ux != uy {
-						o.Fail(c.evPos(ev), "finality comparison mixes units: "+ux+" vs "+uy, c.Dump(p, i))
-						continue
-					}
-					units[ux] = append(units[ux], fnShort(t.fn)+" @"+c.evPos(ev))
-				}
-			}
-		}
-		if len(units) > 1 {
-			var parts []string
-			for _, k := range sortedKeys(units) {
-				parts = append(parts, k+": "+units[k][0])
-			}
-			o.Fail("-", "finality is decided in different time units ("+strings.Join(parts, "; ")+"): inside the boundary second an output is final for one and still deletable / unpaid for another", nil)
-		}
-		if o.Sites == 0 {
-			o.Fail("-", "no finality comparison found (floor 1)", nil)
-		}
-	})
+	c.Rule("C05.R7", func() { oneFinalityClock(c, "C05.R7") })
+	c.Rule("C05.R8", func() { deleteOutputRule(c, "C05.R8") })
 
 	c.Rule("C05.R6", func() {
 		g := c.Method(hostKeeper, "Keeper", "GetLastFinalizedOutput")
@@ -977,3 +966,69 @@ func isNextOutputIndex(t *Term) bool {
 }
 
 var _ = types.Typ
+
+// oneFinalityClock: payout, deletion refusal, the finality query and the last-finalized query
+// compare block time and deadline in the same unit (C05: the window; C11: what is deletable is
+// exactly what is not final, so the final outputs stay a prefix).
+func oneFinalityClock(c *Ctx, id string) {
+		o := c.Ob(id, "every finality comparison of ophost uses the same time unit")
+		units := map[string][]string{}
+		type tgt struct {
+			fn *ssa.Function
+			po PO
+		}
+		tgts := []tgt{
+			{hostHandler(c, "FinalizeTokenWithdrawal"), hostPO},
+			{c.Method(hostKeeper, "Keeper", "DeleteOutputProposal"), PO{Params: []string{"k", "ctx", "bridgeId", "outputIndex"}}},
+			{c.Method(hostKeeper, "Keeper", "GetLastFinalizedOutput"), PO{Params: []string{"k", "ctx", "bridgeId"}, Callbacks: true}},
+			{c.Method(hostKeeper, "Keeper", "IsFinalized"), PO{Params: []string{"k", "ctx", "bridgeId", "outputIndex"}}},
+		}
+		for _, t := range tgts {
+			for _, p := range c.Paths(t.fn, t.po) {
+				o.Paths++
+				for i := range p.Events {
+					ev := &p.Events[i]
+					if ev.Kind != EvFact {
+						continue
+					}
+					rf, ok := factRel(ev.Cond, ev.Pol)
+					if !ok {
+						continue
+					}
+					x, y := rf.X.Key(), rf.Y.Key()
+					if !strings.Contains(x, "BlockTime(ctx)") {
+						x, y = y, x
+					}
+					if !strings.Contains(x, "BlockTime(ctx)") || !strings.Contains(y, ".L1BlockTime") {
+						continue
+					}
+					o.Sites++
+					u := func(k string) string {
+						if strings.HasPrefix(k, "(time.Time).Unix(") {
+							return "seconds"
+						}
+						if strings.HasPrefix(k, "(time.Time).UnixNano(") || strings.HasPrefix(k, "(time.Time).UnixMilli(") {
+							return "sub-seconds"
+						}
+						return "time.Time"
+					}
+					ux, uy := u(x), u(y)
+					if ux != uy {
+						o.Fail(c.evPos(ev), "finality comparison mixes units: "+ux+" vs "+uy, c.Dump(p, i))
+						continue
+					}
+					units[ux] = append(units[ux], fnShort(t.fn)+" @"+c.evPos(ev))
+				}
+			}
+		}
+		if len(units) > 1 {
+			var parts []string
+			for _, k := range sortedKeys(units) {
+				parts = append(parts, k+": "+units[k][0])
+			}
+			o.Fail("-", "finality is decided in different time units ("+strings.Join(parts, "; ")+"): inside the boundary second an output is final for one and still deletable / unpaid for another", nil)
+		}
+		if o.Sites == 0 {
+			o.Fail("-", "no finality comparison found (floor 1)", nil)
+		}
+}
